@@ -116,7 +116,7 @@ func (h *health) Check(ctx context.Context) bool {
 		script = o.in.spec.Health[n]
 	}
 	rec := &HealthRec{Seq: s.nextSeq(), T: s.now(), Obj: o.idx, Inst: o.in.idx, N: n, Script: script, Deadline: -1,
-		TokenAtCall: o.el.Token(), LeaderAtCall: o.el.IsLeader()}
+		TokenAtCall: o.el.Token(), LeaderAtCall: o.el.IsLeader(), Gid: gid()}
 	if dl, ok := ctx.Deadline(); ok {
 		rec.Deadline = time.Until(dl)
 	}
